@@ -286,6 +286,11 @@ func roLookup(g *ssa.Global, key sval) (val sval, found bool, ok bool) {
 			if f, isF := c.Fn.(*ssa.Function); isF && len(c.Bindings) == 0 {
 				return sval{sym: f.Name(), fn: f}, true, true
 			}
+		case *ssa.UnOp:
+			// a struct row built in a temporary of the initialiser: one value per field
+			if row, ok := rowTuple(c); ok {
+				return row, true, true
+			}
 		}
 		return sval{}, true, false
 	}
@@ -332,4 +337,61 @@ func globalOfLoad(v ssa.Value) *ssa.Global {
 		}
 	}
 	return nil
+}
+
+// rowTuple: the value is the load of a struct temporary that the package initialiser fills field by field with
+// constants and functions (a table row `{dtype: ast.Int, convert: func…}`); the fields as a tuple.
+func rowTuple(ld *ssa.UnOp) (sval, bool) {
+	al, ok := ld.X.(*ssa.Alloc)
+	if !ok || al.Referrers() == nil {
+		return sval{}, false
+	}
+	st := structOfPtr(al.Type())
+	if st == nil {
+		return sval{}, false
+	}
+	tup := make([]sval, st.NumFields())
+	for i := range tup {
+		z, zok := zeroConst(st.Field(i).Type())
+		if !zok {
+			z = symv("zero")
+		}
+		tup[i] = z
+	}
+	for _, r := range *al.Referrers() {
+		switch x := r.(type) {
+		case *ssa.FieldAddr:
+			if x.Referrers() == nil {
+				return sval{}, false
+			}
+			for _, r2 := range *x.Referrers() {
+				s, isS := r2.(*ssa.Store)
+				if !isS || s.Addr != ssa.Value(x) {
+					return sval{}, false
+				}
+				switch c := s.Val.(type) {
+				case *ssa.Const:
+					if c.Value == nil {
+						tup[x.Field] = sval{nil: true}
+					} else {
+						tup[x.Field] = constv(c.Value)
+					}
+				case *ssa.Function:
+					tup[x.Field] = sval{sym: c.Name(), fn: c}
+				case *ssa.MakeClosure:
+					f, isF := c.Fn.(*ssa.Function)
+					if !isF || len(c.Bindings) != 0 {
+						return sval{}, false
+					}
+					tup[x.Field] = sval{sym: f.Name(), fn: f}
+				default:
+					return sval{}, false
+				}
+			}
+		case *ssa.UnOp, *ssa.DebugRef:
+		default:
+			return sval{}, false
+		}
+	}
+	return sval{tup: tup}, true
 }
